@@ -21,9 +21,12 @@ const (
 	c1PubPanic
 	c1PubErrAfterAccept
 	c1Kinds
+	// only in random scripts (the enumerated cells keep their numbering)
+	c1PubErrCanceled = c1Kinds
+	c1KindsRandom    = c1Kinds + 1
 )
 
-var c1KindNames = [...]string{"handler-error", "handler-panic", "publisher-error", "publisher-panic", "publisher-error-after-accept"}
+var c1KindNames = [...]string{"handler-error", "handler-panic", "publisher-error", "publisher-panic", "publisher-error-after-accept", "publisher-error-context-canceled"}
 
 type c1Fault struct {
 	stage int
@@ -84,7 +87,7 @@ func c01Body(r *Run) {
 		}
 		nF := t.Skewed(9)
 		for i := 0; i < nF; i++ {
-			faults = append(faults, c1Fault{stage: t.Int(nLevels + 1), kind: t.Int(c1Kinds), k: 1 + t.Skewed(6)})
+			faults = append(faults, c1Fault{stage: t.Int(nLevels + 1), kind: t.Int(c1KindsRandom), k: 1 + t.Skewed(6)})
 		}
 	}
 	cfg := gochannel.Config{OutputChannelBuffer: int64(simrt.Pick(t, 0, 1, 3)), Persistent: t.Chance(1, 4), BlockPublishUntilSubscriberAck: t.Chance(1, 3)}
@@ -134,6 +137,8 @@ func c01Body(r *Run) {
 			s.pub.FailAt[f.k] = PubPanic
 		case c1PubErrAfterAccept:
 			s.pub.FailAt[f.k] = PubErrAfterAccept
+		case c1PubErrCanceled:
+			s.pub.FailAt[f.k] = PubErrCanceled
 		}
 	}
 	var fd []string
